@@ -225,7 +225,7 @@ impl Search {
 
             self.board.make_move(mv);
             #[cfg(rce_verif)]
-            crate::verif::down(mv.to_notation(), u16::from(self.info.depth) + 1);
+            crate::verif::down(&mv, u16::from(self.info.depth) + 1);
             self.info.nodes += 1;
 
             let mut score;
@@ -407,7 +407,7 @@ impl Search {
 
             self.board.make_move(mv);
             #[cfg(rce_verif)]
-            crate::verif::down(mv.to_notation(), u16::from(self.info.depth) + 1);
+            crate::verif::down(&mv, u16::from(self.info.depth) + 1);
             self.info.nodes += 1;
 
             let mut score;
@@ -566,7 +566,7 @@ impl Search {
 
             self.board.make_move(mv);
             #[cfg(rce_verif)]
-            crate::verif::down(mv.to_notation(), u16::from(self.info.depth) + 1);
+            crate::verif::down(&mv, u16::from(self.info.depth) + 1);
             self.info.nodes += 1;
 
             self.info.depth += 1;
